@@ -42,8 +42,23 @@ def runs {α : Type} (eq : α → α → Bool) : List α → List (Nat × Nat)
   | [] => []
   | x :: xs => runsFrom eq 0 x 1 xs
 
-/-- `peer_of[i]`: index of the range containing `i` -/
-def rangeOf (ranges : List (Nat × Nat)) (i : Nat) : Nat := ranges.findIdx (fun r => decide (r.1 ≤ i) && decide (i < r.2))
+/-- arrow's `partition` kernel marks a boundary wherever two ADJACENT rows differ; the range containing row `i` starts at the
+    last boundary at or before `i` … -/
+def peerStart {α : Type} [Inhabited α] (eq : α → α → Bool) (l : List α) : Nat → Nat
+  | 0 => 0
+  | p + 1 => if eq (l.getD p default) (l.getD (p + 1) default) then peerStart eq l p else p + 1
+
+/-- … and ends at the first boundary after `i` (or at the end of the input) -/
+def peerEndFrom {α : Type} [Inhabited α] (eq : α → α → Bool) (l : List α) (p : Nat) : Nat → Nat
+  | 0 => p + 1
+  | fuel + 1 =>
+    if p + 1 < l.length && eq (l.getD p default) (l.getD (p + 1) default) then peerEndFrom eq l (p + 1) fuel else p + 1
+
+def peerEnd {α : Type} [Inhabited α] (eq : α → α → Bool) (l : List α) (p : Nat) : Nat := peerEndFrom eq l p (l.length - p)
+
+/-- number of boundaries in `(ps, i]` -/
+def boundariesIn {α : Type} [Inhabited α] (eq : α → α → Bool) (l : List α) (ps i : Nat) : Nat :=
+  ((List.range' (ps + 1) (i - ps)).filter (fun j => !eq (l.getD (j - 1) default) (l.getD j default))).length
 
 def toGenBound : FrameBound → Gen.Window.FrameBound
   | .unboundedPreceding => .UnboundedPreceding
@@ -59,10 +74,14 @@ structure Ctx where
   frame : Frame                 -- resolved (the binder materialises the default)
   sorted : List SRow
   partitions : List (Nat × Nat)
-  peers : List (Nat × Nat)
+  hasKeys : Bool                -- false: no PARTITION BY and no ORDER BY — every row is a peer of every row
 
 def Ctx.n (c : Ctx) : Nat := c.sorted.length
-def Ctx.peerOf (c : Ctx) (i : Nat) : Nat × Nat := c.peers.getD (rangeOf c.peers i) (0, 0)
+/-- rows are peers when they agree on the partition AND the order keys -/
+def peerEq (a b : SRow) : Bool := a.pk == b.pk && a.ok == b.ok
+/-- `peers[peer_of[i]]`: the peer range of sorted row `i` -/
+def Ctx.peerOf (c : Ctx) (i : Nat) : Nat × Nat :=
+  if c.hasKeys then (peerStart peerEq c.sorted i, peerEnd peerEq c.sorted i) else (0, c.sorted.length)
 def Ctx.row (c : Ctx) (i : Nat) : SRow := c.sorted.getD i default
 
 /-- `range_key`: the order key as the engine sees it for RANGE offsets (`None` = NULL) — numeric / date keys only -/
@@ -197,8 +216,8 @@ def evaluateSorted (c : Ctx) : Except EErr (List Val) := do
   | .rank => forRows c fun part i => pure (.int ((c.peerOf i).1 - part.1 + 1 : Nat))
   | .denseRank =>
     forRows c fun part i =>
-      -- number of peer groups of the partition that start at or before `i`
-      pure (.int ((c.peers.filter (fun r => decide (part.1 ≤ r.1) && decide (r.1 ≤ i))).length : Nat))
+      -- `dense += 1` whenever `peer_of[i]` changes: one plus the peer boundaries of the partition up to `i`
+      pure (.int ((if c.hasKeys then boundariesIn peerEq c.sorted part.1 i else 0) + 1 : Nat))
   | .percentRank =>
     forRows c fun part i =>
       let rows := part.2 - part.1
@@ -314,8 +333,8 @@ def evaluateWith (fo : FloatOps) (dev : Dev) (w : WinCall) (rows : List SRow) (i
   if fr.stop == .unboundedPreceding then throw (.err (.bad "frame cannot end at UNBOUNDED PRECEDING"))
   let sorted := indices.map (fun i => rows.getD i default)
   let partitions := if w.partition.isEmpty then [(0, rows.length)] else runs (fun a b => a.pk == b.pk) sorted
-  let peers := if w.partition.isEmpty && w.order.isEmpty then [(0, rows.length)] else runs (fun a b => a.pk == b.pk && a.ok == b.ok) sorted
-  let c : Ctx := { fo := fo, dev := dev, call := w, frame := resolveFrame w, sorted := sorted, partitions := partitions, peers := peers }
+  let c : Ctx := { fo := fo, dev := dev, call := w, frame := resolveFrame w, sorted := sorted, partitions := partitions,
+                   hasKeys := !(w.partition.isEmpty && w.order.isEmpty) }
   let vals ← evaluateSorted c
   -- scatter back: out[indices[i]] = vals[i]
   pure ((List.range rows.length).map (fun orig => vals.getD (indices.idxOf orig) .null))
